@@ -71,7 +71,7 @@ def main():
         for bad in ((i for i in range(3)), M.dec({'$o': 'unpicklable'}), M.dec({'$o': 'badrepr'})):
             for probe in (f.key, f.lookup):
                 try:
-                    probe(bad) if job['fn'] not in ('f9',) else probe(bad, 1)
+                    probe(bad) if job['fn'] not in ('f9', 't2') else probe(bad, 1, 2)
                 except BaseException:
                     pass
     out = []
